@@ -161,13 +161,23 @@ def only_pairing_difference(a, b):
     return norm(a) == norm(b)
 
 
-def run_case(b: Batch, cfg, filters, led, tp):
+def run_case(b: Batch, cfg, filters, led, tp, _retry=False):
     r = random.Random(cfg["seed"])
     u = Universe(r)
     sess = None
     try:
         u.populate(cfg.get("n_root", 4), cfg.get("n_out", 4))
-        sess = MultiSession(u, filters, cfg["recursive"], cfg["full"], led, tp)
+        import errno as _errno
+
+        for attempt in range(6):
+            try:
+                sess = MultiSession(u, filters, cfg["recursive"], cfg["full"], led, tp)
+                break
+            except OSError as e:
+                if e.errno not in (_errno.EMFILE, _errno.ENFILE, _errno.ENOSPC) or attempt == 5:
+                    raise
+                b.count("environment_backoffs")
+                time.sleep(1.0 + attempt)
         pacer = Pacer()
         gen = OpGen(u, r, bias=BIAS, allow_out_ops=cfg.get("out_ops", False))
         why = sess.drain()
@@ -203,6 +213,7 @@ def run_case(b: Batch, cfg, filters, led, tp):
             b.inconc(f"C11: {why} state={st} (filters={[sorted(c.__name__ for c in f) for f in filters]})")
             return
         sent = os.path.join(sess.root, fsrig.SENT)
+        retry = []
         s0 = [e for e in sess.h0.events if e.src_path != sent]
         for f, col in zip(filters, sess.cols):
             names = sorted(c.__name__ for c in f)
@@ -220,6 +231,13 @@ def run_case(b: Batch, cfg, filters, led, tp):
                 if only_pairing_difference(want, got):
                     b.count("inconclusive_pairing_difference")
                     continue
+                lost = [e for e in want if e not in got]
+                if not _retry and lost and not [e for e in got if e not in want] and all(e.event_type in ("moved", "modified") for e in lost):
+                    # could be the two inotify instances pairing a rename differently under load (the filter hides the
+                    # deleted/created halves): run the very same case once more and judge that run
+                    b.count("retried_possible_pairing_difference")
+                    retry.append(f)
+                    continue
                 # first difference
                 i = 0
                 while i < min(len(want), len(got)) and want[i] == got[i]:
@@ -233,6 +251,11 @@ def run_case(b: Batch, cfg, filters, led, tp):
                             replay_spec={"kind": "case1", "cfg": cfg, "filters": [names]})
         if len(b.samples) < 2:
             b.sample({"cfg": cfg, "filters": [sorted(c.__name__ for c in f) for f in filters], "ops": ops[:25], "unfiltered_events": len(s0)})
+        if retry:
+            sess.close()
+            sess = None
+            u.cleanup()
+            run_case(b, cfg, retry, led, tp, _retry=True)
     finally:
         if sess is not None:
             try:
